@@ -163,7 +163,9 @@ Lemma run_openat t fd d part :
 Proof.
   intros Hfd Hlt Hnul Hsl. unfold os, map_err, w_openat, w_openat_follow, rustix_path.
   rewrite (tget_valid _ _ _ Hfd), Hnul. cbn [negb bind Static.run].
-  unfold answer. cbn [sem]. rewrite Hfd, walk_flags_ok, walk_flags_nodir, Hsl, Hnul. cbn [negb orb andb].
+  unfold answer. cbn [sem]. rewrite Hfd.
+  destruct (Nat.eqb_spec d (P_FDDIR s)) as [E|_]; [unfold P_FDDIR in E; lia|]. cbn [andb].
+  rewrite walk_flags_ok, walk_flags_nodir, Hsl, Hnul. cbn [negb orb andb].
   destruct (Nat.leb_spec (PB s) d) as [Hle|_]; [lia|].
   destruct (sem_open s d part) as [o|e].
   - cbn [as_fd]. pose proof (fresh_ge3 t) as H3.
